@@ -1,2 +1,4 @@
 import Props.C13
 import Props.C01
+import Props.C06
+import Props.C07
